@@ -4,6 +4,7 @@ import (
 	"context"
 	"fmt"
 	"net"
+	"sort"
 	"strings"
 	"syscall"
 	"time"
@@ -14,6 +15,7 @@ import (
 	"github.com/cloudwego/hertz/pkg/common/tracer/stats"
 	"github.com/cloudwego/hertz/pkg/network"
 	"github.com/cloudwego/hertz/pkg/network/standard"
+	"github.com/cloudwego/hertz/pkg/protocol"
 
 	"verifsim/core"
 	"verifsim/pollstub"
@@ -27,7 +29,7 @@ func init() {
 		Real:           []string{"http1.Server.Serve (DoStart/DoFinish/eventStack)", "internal/stats.Controller", "traceinfo.HTTPStats", "recovery middleware", "route.Engine", "standard.Conn"},
 		Stub:           []string{"TCP (SimConn)", "peer (scripted actor)", "transporter (stub; for return-to-transport mode the harness re-enters Engine.Serve when data arrives, as netpoll does)", "clock (synctest)"},
 		Assumptions:    []string{"a connection that delivers no byte at all may produce one Start/Finish pair (the server starts tracing before the first read); this is not counted against the per-request rule"},
-		RequiredProbes: []string{"out-ok", "out-panic", "out-malformed", "out-toolarge", "out-fin-header", "out-fin-body", "out-rst-body", "out-write-error", "out-hijack", "out-close", "end-fin-idle", "end-rst-idle", "end-idle-timeout", "end-stray-fin", "mode-return-to-transport", "level-base", "level-detailed", "level-disabled"},
+		RequiredProbes: []string{"out-expect-ok", "out-expect-rejected", "out-ok", "out-panic", "out-malformed", "out-toolarge", "out-fin-header", "out-fin-body", "out-rst-body", "out-write-error", "out-hijack", "out-close", "end-fin-idle", "end-rst-idle", "end-idle-timeout", "end-stray-fin", "mode-return-to-transport", "level-base", "level-detailed", "level-disabled"},
 	}
 }
 
@@ -79,7 +81,7 @@ func (t *recTracer) Finish(ctx context.Context, c *app.RequestContext) {
 	t.snap("finish", c)
 }
 
-var c19Outcomes = []string{"ok", "ok", "ok", "panic", "malformed", "toolarge", "fin-header", "fin-body", "rst-body", "write-error", "hijack", "close"}
+var c19Outcomes = []string{"ok", "ok", "ok", "panic", "malformed", "toolarge", "fin-header", "fin-body", "rst-body", "write-error", "hijack", "close", "expect-ok", "expect-rejected"}
 
 func RunC19(ep *core.Episode) {
 	tp := ep.Tape
@@ -111,7 +113,7 @@ func RunC19(ep *core.Episode) {
 		if o.Stream && outcomes[i] == "toolarge" {
 			outcomes[i] = "ok" // streaming mode does not reject on the size limit
 		}
-		if outcomes[i] != "ok" && outcomes[i] != "panic" && ender < 0 {
+		if outcomes[i] != "ok" && outcomes[i] != "panic" && outcomes[i] != "expect-ok" && outcomes[i] != "expect-rejected" && ender < 0 {
 			ender = i
 		}
 	}
@@ -164,6 +166,8 @@ func RunC19(ep *core.Episode) {
 		ctx.SetStatusCode(200)
 		ctx.Response.SetBodyString(fmt.Sprintf("ok %d", idx))
 	})
+	// Expect: 100-continue: the engine's ContinueHandler turns marked requests down (417, the body is never sent)
+	srv.Eng.ContinueHandler = func(h *protocol.RequestHeader) bool { return len(h.Peek("X-Reject")) == 0 }
 	srv.Start()
 
 	// connection + serving task (return-to-transport mode re-enters Serve)
@@ -198,6 +202,7 @@ func RunC19(ep *core.Episode) {
 	cl.CloseWhenDone = false
 	delay := time.Millisecond
 	finHeaderCut := 0
+	continues := 0
 	for i, oc := range outcomes {
 		m := &wire.Msg{Proto: "HTTP/1.1", Method: "POST", Target: fmt.Sprintf("/t%d", i), Headers: []wire.Header{{K: "Host", V: "h"}}}
 		m.Body = core.PatternBytes(byte(i), 10+tp.Choose("blen", 500))
@@ -207,6 +212,12 @@ func RunC19(ep *core.Episode) {
 		if oc == "malformed" {
 			m.Headers = append(m.Headers, wire.Header{K: "Bad Header", V: "x", Raw: "Bad Header : x\r\n"})
 		}
+		if oc == "expect-ok" || oc == "expect-rejected" {
+			m.Headers = append(m.Headers, wire.Header{K: "Expect", V: "100-continue"})
+			if oc == "expect-rejected" {
+				m.Headers = append(m.Headers, wire.Header{K: "X-Reject", V: "1"})
+			}
+		}
 		data, bounds := m.Encode()
 		head := strings.Index(string(data), "\r\n\r\n") + 4
 		after := 0
@@ -215,6 +226,12 @@ func RunC19(ep *core.Episode) {
 		}
 		cl.Methods = append(cl.Methods, "POST")
 		switch oc {
+		case "expect-ok":
+			continues++
+			cl.Sends = append(cl.Sends, Send{Data: data[:head], AfterResps: after, Delay: delay, Bounds: bounds, Label: "head-expect"}, Send{Data: data[head:], AfterContinues: continues, Delay: delay, Label: "body-after-100"})
+		case "expect-rejected":
+			// no 100 Continue arrives: the body is never sent
+			cl.Sends = append(cl.Sends, Send{Data: data[:head], AfterResps: after, Delay: delay, Bounds: bounds, Label: "head-expect-rejected"})
 		case "fin-header":
 			cut := 1 + tp.Choose("hcut", head-2)
 			finHeaderCut = cut
@@ -340,7 +357,12 @@ func RunC19(ep *core.Episode) {
 			}
 		}
 		// no event of the previous request is visible when the pair starts
+		var stNames []string
 		for name := range st.events {
+			stNames = append(stNames, name)
+		}
+		sort.Strings(stNames) // map order must not reach the message
+		for _, name := range stNames {
 			if name != "HTTPStart" {
 				ep.Fail("C19.reset", "event %s is already present when pair %d starts", name, i)
 				return
@@ -389,7 +411,7 @@ func RunC19(ep *core.Episode) {
 			}
 			prev, prevName = t, e.name
 		}
-		if oc == "ok" || oc == "close" || oc == "hijack" {
+		if oc == "ok" || oc == "close" || oc == "hijack" || oc == "expect-ok" {
 			if len(fin.events) != len(c19Events) {
 				ep.Fail("C19.stages", "pair %d (outcome %s) is missing stage events: has %d of %d", i, oc, len(fin.events), len(c19Events))
 				return
